@@ -1093,5 +1093,13 @@ func (it *interp) stateBlock(e *gspec.Expr, off int, env map[string]any) {
 	it.events = append(it.events, ev)
 	it.stale = append(it.stale, it.last)
 	vrt.ApplyOps(it.state, it.global, gspec.OpsScript(e.Ops))
+	for _, v := range it.state {
+		if l, ok := v.(*vrt.CList); ok && len(l.Items) > 400 {
+			// (every choice and sequence clones the store: a list of hundreds of items makes a
+			// case too expensive for the reference - left-recursive rules that append in a tail
+			// re-run the block at every growth step)
+			panic(budgetSignal{})
+		}
+	}
 	it.fault(e, p, off)
 }
